@@ -11,7 +11,7 @@ import (
 )
 
 func (g *Gen) resetVC() {
-	g.vc = &VC{declSet: map[string]bool{}}
+	g.vc = &VC{declSet: map[string]bool{}, sorts: g.cs.Sorts}
 	g.structs = map[string]*types.Struct{}
 	g.strLits = map[string]string{}
 	g.tags = map[string]int{}
@@ -117,9 +117,10 @@ func (g *Gen) verifyFunc(fc *FuncContract) (vc *VC) {
 	if fn.Signature.Recv() != nil && len(fn.Params) > 0 {
 		fr.params["recv"] = fr.vals[fn.Params[0]]
 	}
+	g.applyPkgInit(fr, st, fn)
 	env := g.envFor(fr, st)
 	env.old = st
-	for _, rq := range fc.Requires {
+	for _, rq := range append(append([]*Clause{}, fc.Requires...), fc.Inits...) {
 		v, err := g.evalBool(rq.Expr, env)
 		if err != nil {
 			g.contractError(rq, err)
@@ -324,4 +325,127 @@ func allArgsConst(c *ssa.CallCommon) bool {
 		}
 	}
 	return true
+}
+
+// applyPkgInit symbolically runs the package initializer of the function's package so that package-level
+// variables that are never assigned afterwards (checked over the whole module) start with their initial values.
+func (g *Gen) applyPkgInit(fr *Frame, st *State, fn *ssa.Function) {
+	top := fn
+	for top.Parent() != nil {
+		top = top.Parent()
+	}
+	if top.Pkg == nil {
+		return
+	}
+	initFn := top.Pkg.Func("init")
+	if initFn == nil || len(initFn.Blocks) == 0 {
+		return
+	}
+	g.computeGlobalStability()
+	saveObls, saveNotes := len(g.vc.obls), len(g.vc.notes)
+	g.dry++
+	g.inInit = true
+	func() {
+		defer func() {
+			if r := recover(); r != nil {
+				g.vc.note("unmodelled", fmt.Sprintf("package initializer of %s could not be executed: %v", top.Pkg.Pkg.Name(), r))
+			}
+		}()
+		st.cells["G$"+pkgName(top.Pkg.Pkg)+".init$guard"] = Val{T: "false", S: "Bool", Ty: types.Typ[types.Bool]}
+		cf := g.newFrame(initFn, nil)
+		cf.depth = 2
+		_, stOut, _ := g.execFunc(cf, st, "true")
+		*st = *stOut
+	}()
+	g.inInit = false
+	g.dry--
+	g.vc.obls = g.vc.obls[:saveObls]
+	g.vc.notes = g.vc.notes[:saveNotes]
+	// forget globals that are assigned outside the initializer
+	for id := range st.cells {
+		if strings.HasPrefix(id, "G$") && g.unstableGlobals[id] {
+			delete(st.cells, id)
+		}
+	}
+	for id, v := range st.cells {
+		if strings.HasPrefix(id, "G$") && g.unstablePointees[id] {
+			if p := g.ptrOf(v); p != nil {
+				g.havocPtr(st, p)
+			}
+		}
+	}
+	st.src = map[types.Object]Val{}
+	st.srcAddr = map[types.Object]bool{}
+	g.vc.note("assumed", "package-level variables of "+top.Pkg.Pkg.Name()+" that are never assigned outside the package initializer keep their initial values")
+}
+
+// computeGlobalStability scans the module for stores to package-level variables (or through pointers loaded from them).
+func (g *Gen) computeGlobalStability() {
+	if g.unstableGlobals != nil {
+		return
+	}
+	g.unstableGlobals = map[string]bool{}
+	g.unstablePointees = map[string]bool{}
+	gid := func(gl *ssa.Global) string { return "G$" + pkgName(gl.Pkg.Pkg) + "." + gl.Name() }
+	var rootGlobal func(v ssa.Value, depth int) (*ssa.Global, bool)
+	rootGlobal = func(v ssa.Value, depth int) (*ssa.Global, bool) {
+		// returns the global a pointer value is derived from, and whether it went through a load of the global
+		if depth > 6 {
+			return nil, false
+		}
+		switch x := v.(type) {
+		case *ssa.Global:
+			return x, false
+		case *ssa.FieldAddr:
+			gl, _ := rootGlobal(x.X, depth+1)
+			if gl != nil {
+				return gl, true
+			}
+		case *ssa.IndexAddr:
+			gl, _ := rootGlobal(x.X, depth+1)
+			if gl != nil {
+				return gl, true
+			}
+		case *ssa.UnOp:
+			if x.Op.String() == "*" {
+				gl, _ := rootGlobal(x.X, depth+1)
+				if gl != nil {
+					return gl, true
+				}
+			}
+		}
+		return nil, false
+	}
+	for _, fn := range g.funcByKey {
+		p := pkgOfFn(fn)
+		if p == nil || !g.isRepoPkg(p) {
+			continue
+		}
+		isInit := fn.Name() == "init" || strings.HasPrefix(fn.Name(), "init#")
+		for _, b := range fn.Blocks {
+			for _, in := range b.Instrs {
+				var addr ssa.Value
+				switch x := in.(type) {
+				case *ssa.Store:
+					addr = x.Addr
+				case *ssa.MapUpdate:
+					addr = x.Map
+				default:
+					continue
+				}
+				gl, through := rootGlobal(addr, 0)
+				if gl == nil || !g.isRepoPkg(gl.Pkg.Pkg) {
+					continue
+				}
+				if isInit && fn.Pkg == gl.Pkg {
+					continue
+				}
+				if through {
+					g.unstablePointees[gid(gl)] = true
+				} else {
+					g.unstableGlobals[gid(gl)] = true
+				}
+			}
+		}
+	}
 }
